@@ -252,7 +252,7 @@ func (m *l0Machine) genVal(rt *rapid.T, r int, label string) sim.Val {
 	}
 	keys := keyPoolPlain
 	if !m.cfg.Conflict && rapid.IntRange(0, 3).Draw(rt, label+".hostile") == 0 {
-		keys = keyPoolHostile[:len(keyPoolHostile)-1] // no empty key inside values
+		keys = keyPoolHostile // including the empty key, which a Document accepts
 	}
 	return genJSONVal(rt, label, depth, keys)
 }
@@ -473,7 +473,7 @@ func (m *l0Machine) genDocCall(rt *rapid.T, r int, view interface{}) sim.Call {
 	if m.cfg.Conflict {
 		keys = keyPoolPlain[:3]
 	} else if rapid.IntRange(0, 4).Draw(rt, "dhostile") == 0 {
-		keys = keyPoolHostile[:len(keyPoolHostile)-1]
+		keys = keyPoolHostile // including the empty key, which a Document accepts
 	}
 	if m.cfg.Invalid && rapid.IntRange(0, 11).Draw(rt, "missingrm") == 0 {
 		// a key from the pool: mostly absent or already deleted (a clean error, no operation)
